@@ -249,7 +249,7 @@ type runner struct {
 	failed  bool // some executed stage has failed or panicked so far
 }
 
-const evTimeout = 5 * time.Second
+const evTimeout = 3 * time.Second
 
 func (r *runner) mkStage(n *node) stage.Stage {
 	spec := stage.VerifStageSpec{
@@ -677,9 +677,16 @@ func (area) Run(c *core.Ctx) error {
 	if c.Tier == "thorough" {
 		maxNodes = 14
 	}
+	timeouts := 0
 	for i := 0; i < c.N; i++ {
 		if !c.Want(i) {
 			continue
+		}
+		if timeouts >= 3 {
+			// the implementation stopped following the protocol (each such case costs seconds and
+			// leaves goroutines behind); three recorded failures are enough to decide
+			c.Note("aborted after 3 timeouts")
+			break
 		}
 		rng := c.Rng(i)
 		c.Begin(i)
@@ -689,6 +696,9 @@ func (area) Run(c *core.Ctx) error {
 			c.Branch("fixed-witness")
 			r, used := runPipeline(c, pool, root, rng, f.sched)
 			r.oracle(c, root, used, f.witness)
+			if r.o.timeout != "" {
+				timeouts++
+			}
 			c.NonTrivial()
 			continue
 		}
@@ -711,6 +721,9 @@ func (area) Run(c *core.Ctx) error {
 		c.Branch([]string{"gen-no-panic", "gen-recoverable-panics", "gen-any", "gen-lindb-shape"}[kind])
 		r, used := runPipeline(c, pool, root, rng, nil)
 		r.oracle(c, root, used, "")
+		if r.o.timeout != "" {
+			timeouts++
+		}
 		// distribution
 		nAsync, nExec := 0, 0
 		for _, n := range r.all {
